@@ -50,6 +50,8 @@ func (c *chainImporter) ImportFrom(path, dir string, mode types.ImportMode) (*ty
 	return c.src.Import(path)
 }
 
+var repoRoot = "/repo"
+
 type Loader struct {
 	Fset *token.FileSet
 	imp  *chainImporter
@@ -58,8 +60,11 @@ type Loader struct {
 func NewLoader() *Loader {
 	fset := token.NewFileSet()
 	// the source importer honours build.Default; make sure the verif tag is off
-	ctx := build.Default
-	_ = ctx
+	// module-aware lookups of the source importer (x/tools for package main) run `go list` in /repo
+	for k, v := range map[string]string{"GOFLAGS": "-mod=mod", "GOPROXY": "off", "GOSUMDB": "off", "GOTOOLCHAIN": "local", "CGO_ENABLED": "0"} {
+		os.Setenv(k, v)
+	}
+	build.Default.Dir = repoRoot
 	return &Loader{Fset: fset, imp: &chainImporter{known: map[string]*types.Package{}, src: importer.ForCompiler(fset, "source", nil)}}
 }
 
